@@ -115,6 +115,13 @@ type scenario interface {
 	Shrink(plan interface{}) []interface{}
 }
 
+// sweeper is implemented by scenarios whose thorough tier enumerates a fault over every point of a base run.
+type sweeper interface {
+	// Base returns the fault-free version of a plan; Sweep the variants of it given the base run's record.
+	Base(plan interface{}) interface{}
+	Sweep(plan interface{}, base *RunRecord) []interface{}
+}
+
 var scenarios = map[string]scenario{}
 
 // RunRecord is one line of worker output.
@@ -140,6 +147,7 @@ type RunRecord struct {
 	Trace      []string          `json:"trace,omitempty"`
 	WallUs     int64             `json:"wall_us"`
 	Other      []simrt.Failure   `json:"other_property,omitempty"`
+	Variant    bool              `json:"variant,omitempty"` // a fault-sweep variant of the base run with the same run index
 }
 
 // ReplayFile is the on-disk format of a failing (or sample) run.
@@ -329,6 +337,38 @@ func simSearch(t *testing.T, opts map[string]string) {
 		seed := runSeedOf(master, run)
 		gr := &Rng{s: seed ^ 0x5bd1e995}
 		plan := scn.Gen(gr, tier, opts)
+		if sw, ok := scn.(sweeper); ok && tier == "thorough" && opts["sweep"] == "1" {
+			// fault enumeration: run the fault-free base, then the same plan and seed with the fault at every point
+			basePlan := sw.Base(plan)
+			base := execRun(t, name, scn, basePlan, seed, nil, false, opts)
+			base.Run = run
+			base.Tape = nil
+			_ = enc.Encode(base)
+			if base.Result == "ok" {
+				for _, v := range sw.Sweep(plan, base) {
+					if time.Now().After(deadline) {
+						break
+					}
+					vr := execRun(t, name, scn, v, seed, nil, false, opts)
+					vr.Run = run
+					vr.Variant = true
+					if vr.Result == "violation" {
+						viol++
+						vr.Plan = v
+					} else {
+						vr.Tape = nil
+					}
+					vr.Trace = nil
+					if err := enc.Encode(vr); err != nil {
+						t.Fatal(err)
+					}
+				}
+			}
+			if viol >= maxViol {
+				break
+			}
+			continue
+		}
 		rec := execRun(t, name, scn, plan, seed, nil, os.Getenv("VSIM_TRACE") != "", opts)
 		rec.Run = run
 		if tf := os.Getenv("VSIM_TRACE_FILE"); tf != "" {
